@@ -13,6 +13,7 @@ def w (x : String) : String := if x = "-" then "" else x
 structure DSt where
   s : St := { me := "me" }
   started : Bool := false
+  pending : Option Ev := none      -- a purchase event whose eth_call is in flight
 
 def watchedLine (s : St) : String :=
   let l := s.watched.mergeSort (· ≤ ·)
@@ -46,6 +47,18 @@ def step (st : DSt) (op : List String) : DSt × List String :=
      (st.s.watched.map (fun a => s!"ctl exit {a}") ++ s'.watched.map (fun a => s!"ctl start {a}")).mergeSort (· ≤ ·) ++ [watchedLine s'])
   | "created" :: a :: rest => apply (.created a (w (kvGet rest "seller")))
   | "purchased" :: a :: rest => apply (.purchased a (w (kvGet rest "buyer")) (w (kvGet rest "validator")))
+  | "purchasedslow" :: a :: rest =>
+    -- the chain changes now, the event is handled when the node's answer arrives
+    match find st.s a with
+    | some c =>
+      let b := w (kvGet rest "buyer"); let v := w (kvGet rest "validator")
+      ({ st with s := setChain st.s { c with buyer := b, validator := v, running := true }, pending := some (.purchased a b v) },
+       [watchedLine st.s])
+    | none => (st, [watchedLine st.s])
+  | ["rpcrelease"] =>
+    match st.pending with
+    | some ev => let r := apply ev; ({ r.1 with pending := none }, r.2)
+    | none => (st, [watchedLine st.s])
   | ["closed", a] => apply (.closed a)
   | ["ctlexit", a] => apply (.ctlExit a)
   | ["deleted", a, _] =>
